@@ -32,6 +32,7 @@ type Clause struct {
 	Canary   bool
 	Merged   bool // evaluate over the merged exit instead of per return site
 	Records  bool // call-history fact: assumed at call sites, nothing to prove in the function itself
+	AtReturn bool   // anchored at the n-th return statement (source order)
 	AtStore  bool   // anchored at the n-th store to the field named Callee
 	Derive   string // derive@call: ghost conclusion assumed once the premise (Text) is proved
 	DeriveFnName string
@@ -131,6 +132,7 @@ type ContractSet struct {
 	extPkgImports map[string][]importSpec
 	extPkgDecls   map[string][]string
 	errs      []string
+	notes     []string
 }
 
 var pkgDirs = []string{"", "xmlenc", "samlsp", "samlidp"}
@@ -142,7 +144,7 @@ func pkgShort(dir string) string {
 	return dir
 }
 
-var clauseRe = regexp.MustCompile(`^(requires|ensures|records|invariant|assert@call|assert@store|derive@call|assume)(\[[^\]]*\])?\s+(.*)$`)
+var clauseRe = regexp.MustCompile(`^(requires|ensures|records|invariant|assert@call|assert@store|assert@return|derive@call|assume)(\[[^\]]*\])?\s+(.*)$`)
 var recordsRe = regexp.MustCompile(`^[A-Z][A-Za-z0-9_]*\((\s*[A-Za-z_][A-Za-z0-9_]*\s*,?)*\)$`)
 var labelRe = regexp.MustCompile(`^([A-Za-z0-9_.\-]+):\s+(.*)$`)
 
@@ -355,7 +357,11 @@ func (cs *ContractSet) parseFile(path, pkgDir string, extern bool) {
 			if kind == "assert@store" {
 				cl.AtStore = true
 			}
-			if kind == "assert@call" || kind == "derive@call" || kind == "assert@store" {
+			if kind == "assert@return" {
+				cl.AtReturn = true
+				text = "return " + text
+			}
+			if kind == "assert@call" || kind == "derive@call" || kind == "assert@store" || kind == "assert@return" {
 				// assert@call[tags] <callee> #n label: expr
 				f := strings.SplitN(text, " ", 3)
 				if len(f) < 3 {
@@ -855,7 +861,9 @@ func (cs *ContractSet) buildOverlay() (map[string][]byte, error) {
 		for _, is := range all {
 			if p, ok := seen[is.alias]; ok {
 				if p != is.path {
-					cs.errs = append(cs.errs, fmt.Sprintf("package %s: import alias %s used for both %s and %s", pkgShort(dir), is.alias, p, is.path))
+					// the package's own source wins (it is listed first); clauses written against the other
+					// package become stale and are reported through their obligations
+					cs.notes = append(cs.notes, fmt.Sprintf("package %s: import alias %s means %s in the source, contracts expected %s", pkgShort(dir), is.alias, p, is.path))
 				}
 				continue
 			}
